@@ -6,7 +6,7 @@ from concurrent.futures import ThreadPoolExecutor
 import lib
 from lib import SPEC, MachineryError, extract_prints, new_run_dir, rm_run_dir, run_tlc
 from histreplay import writehist_drift, writehist_programs, writehist_rejecting_programs
-from modelreplay import dlismodel_drift, dlismodel_programs, dlismodel_ref_programs
+from modelreplay import dlismodel_drift, dlismodel_mut_programs, dlismodel_programs, dlismodel_ref_programs
 
 SEG_ACTIONS = ['Segmenter.WriteSUL', 'Segmenter.BeginRecord', 'Segmenter.SegmentStep', 'Segmenter.Emit', 'Segmenter.FinalFlush']
 # unbounded obligation (Apalache): the split arithmetic keeps its inductive invariant for every capacity >= 12 and every length
@@ -25,6 +25,12 @@ M_DLIS = {'name': 'DlisModel', 'module': 'DlisModel.tla',
 M_DLISREF = {'name': 'DlisModelRefs', 'module': 'DlisModel.tla',
              'cfg': {'quick': 'MC_DlisModel_refs.cfg', 'thorough': 'MC_DlisModel_refs_thorough.cfg'},
              'must_cover': ['DlisModel.AddLogicalFile', 'DlisModel.AddOrigin', 'DlisModel.AddItem'],
+             'timeout': {'quick': 900, 'thorough': 7200}}
+
+
+M_DLISMUT = {'name': 'DlisModelMut', 'module': 'DlisModel.tla',
+             'cfg': {'quick': 'MC_DlisModel_mut.cfg', 'thorough': 'MC_DlisModel_mut_thorough.cfg'},
+             'must_cover': ['DlisModel.AddOrigin', 'DlisModel.AddItem', 'DlisModel.Rename', 'DlisModel.SetOriginRef'],
              'timeout': {'quick': 900, 'thorough': 7200}}
 
 
@@ -158,7 +164,7 @@ REGISTRY = {
     'C05': {'models': [M_ATTR], 'nontrivial': lambda c, p: c['objs'] > 0,
             'rule': 'code: objects of all classes with values per attribute kind and assignment route; TLC compares every assigned attribute of Canon with the decoded object; non-trivial = Canon objects compared',
             'assumptions': COMMON_ASSUME},
-    'C07': {'models': [M_DLIS, M_DLISREF], 'extra_gen': [dlismodel_programs, dlismodel_ref_programs], 'drift': [dlismodel_drift], 'nontrivial': lambda c, p: c['objs'] > 0 and c['eflrs'] > 0,
+    'C07': {'models': [M_DLIS, M_DLISREF, M_DLISMUT], 'extra_gen': [dlismodel_programs, dlismodel_ref_programs, dlismodel_mut_programs], 'drift': [dlismodel_drift], 'nontrivial': lambda c, p: c['objs'] > 0 and c['eflrs'] > 0,
             'rule': 'code: object graphs with repeated names, several origins, explicit origin references, origin added late; TLC resolves every reference of the decoded file and compares with the object the history passed',
             'assumptions': COMMON_ASSUME},
     'C08': {'models': [M_DIMS, M_DATA], 'nontrivial': lambda c, p: c['frames'] > 0 and c['fdata'] > 0,
